@@ -25,6 +25,16 @@ CHECKS = {
             "Trusts central differences on kink-free value grids (tolerance 1e-5 / 2e-3 float32); batch-norm running "
             "statistics re-created and dropout re-seeded per evaluation so the differentiated function is pure.",
             "DESIGN.md 4/C02"),
+    "C03": ("property-based differential + metamorphic testing (Hypothesis) over generated DAG programs with an invariant over the backward call history",
+            "Typed random programs (4-25/40 instructions over 1-4 leaves, operands among all earlier nodes: fan-out, "
+            "diamonds, x op x, several outputs of one unbind, mixed requires-grad) are resolved to SSA form, run with "
+            "tracking and differentiated from a drawn root with an arbitrary g; leaf gradients are compared with "
+            "finite differences of the whole program, with the gradients of a drawn dependency-respecting permutation "
+            "of the construction order, and BackwardFunction.__call__ (wrapped from outside) must fire exactly once "
+            "per reachable node, never for unreachable ones, consumers before producers.",
+            "Finite differences (h=1e-6, tolerance 2e-5*scale) of synapgrad's own forward under no_grad; ops restricted "
+            "to those smooth on the generated values.",
+            "DESIGN.md 4/C03"),
     "C04": ("model-based property testing (Hypothesis) over generated histories of build/backward/retain/reset commands",
             "Histories (command lists, shrinkable and replayable) over shared leaves - build expressions over any "
             "earlier node, backward from any node incl. leaves/former roots/interior nodes inside or outside "
@@ -122,6 +132,24 @@ CHECKS = {
             "6-sigma / 1e-9 statistical bounds with Hypothesis-drawn library seeds; gain table and fan computation "
             "transcribed from the docstrings.",
             "DESIGN.md 4/C15"),
+    "C17": ("property-based testing (Hypothesis) with generated graph sizes: completion, closed-form gradients, call-count and liveness invariants",
+            "Chains / wide graphs / diamond ladders with generated depth up to 1e4 (quick) / 5e4 (thorough) must "
+            "complete backward, give the closed-form leaf gradient and invoke each recorded op's backward exactly "
+            "once; Python-level call counts of backward for sizes n and 2n must scale at most 2.2x; in untracked "
+            "loops (no_grad / no operand requires grad, up to 1e4 iterations) every intermediate except the last "
+            "must be dead (weak references after gc).",
+            "Sizes are explored up to 5e4 sequential ops; cost is asserted on deterministic call counts, not time; "
+            "each task has a wall-clock guard that reports 'inconclusive' (exit 2), never a violation.",
+            "DESIGN.md 4/C17"),
+    "C18": ("property-based testing (Hypothesis) with validity predicates, plus an enumerated small space",
+            "split_dataset (lengths 0-60, awkward and arbitrary fractions, validation optional, shuffle with drawn "
+            "seed): partition, pairing, floor-rule sizes (float or exact-rational arithmetic accepted), order when "
+            "shuffle is off, seed determinism; DataLoader (any batch size, with/without transform, abandoned and "
+            "repeated passes): length, consecutive aligned batches of exactly batch_size, re-iteration from the "
+            "start, transform contract; one_hot_encode vs a reference over label sets with gaps/negatives/floats/"
+            "strings; enumerated grid of small lengths x fraction pool x batch sizes.",
+            "Sample ids are exact in float32; both floor arithmetics are accepted.",
+            "DESIGN.md 4/C18"),
     "C16": ("property-based differential + metamorphic testing (Hypothesis) with an enumerated geometry grid",
             "Generated-input search: the three im2col and three col2im implementations, extract_windows and "
             "place_windows are compared bit-wise against a brute-force loop reference, and the adjoint and "
